@@ -221,6 +221,9 @@ func run(cfg *runCfg, mode string) int {
 	}
 	tSolve := time.Since(tS).Seconds()
 
+	if mode == "baseline" {
+		return writeBaseline(cfg, allObls, engineErrors)
+	}
 	return report(cfg, g, results, allObls, engineErrors, tLoad, tGen, tSolve, time.Since(t0).Seconds())
 }
 
